@@ -258,16 +258,17 @@ def extract_unit(unit, flags=None, roots=None):
     if os.path.exists(out) and _valid(meta):
         return out
     os.makedirs(os.path.dirname(out), exist_ok=True)
-    cmd = [BCFACTS, unit, "-o", out + ".tmp"]
+    tmp = "%s.tmp.%d.%d" % (out, os.getpid(), int(time.time() * 1000) % 1000000)
+    cmd = [BCFACTS, unit, "-o", tmp]
     for r in roots:
         cmd += ["--root", r]
     for m in pipe_maps(unit):
         cmd += ["--map", m]
     cmd += ["--"] + aflags
     r = subprocess.run(cmd, capture_output=True, text=True, cwd=BUILD if os.path.isdir(BUILD) else None)
-    if not os.path.exists(out + ".tmp"):
+    if not os.path.exists(tmp):
         raise AnalysisBroken("bcfacts produced no output for %s: %s" % (unit, r.stderr[-1500:]))
-    data = json.load(open(out + ".tmp"))
+    data = json.load(open(tmp))
     deps = {}
     for p in data.get("deps", []):
         if p.startswith(REPO + "/") or p.startswith(VERIF + "/"):
@@ -275,9 +276,10 @@ def extract_unit(unit, flags=None, roots=None):
             if s:
                 deps[p] = s
     deps[unit] = file_sig(unit)
-    os.replace(out + ".tmp", out)
-    with open(meta, "w") as f:
+    os.replace(tmp, out)
+    with open(meta + ".%d" % os.getpid(), "w") as f:
         json.dump({"unit": unit, "deps": deps, "t": time.time()}, f)
+    os.replace(meta + ".%d" % os.getpid(), meta)
     return out
 
 
